@@ -17,7 +17,7 @@ func init() {
 	register(&Property{
 		ID: "C19",
 		Meta: core.Meta{
-			Level: "other",
+			Level:       "other",
 			Explanation: "A static race-freedom argument for every schedule: shared state is immutable after initialisation and per-request state is request-local. (R19.1, S1+S2) no instruction outside package initialisers (and sync.Once bodies) stores to a package-level variable or through a pointer / map / slice loaded from one — in the runtime packages (uri, conv, json, http, validate, ogenerrors, middleware, ogenregex, otelogen) and in every expanded package (regexMap, ratMap, oauth2 scope tables, …); (R19.2, S1) a *big.Rat loaded from a validator field is never the receiver of a mutating math/big method (the only mutated Rats are local new(big.Rat)); (R19.3, S2) in every generated send<Op> the *url.URL that is mutated (uri.AddPathParts, RawQuery/Path stores) is the result of uri.Clone / url.Parse, never the shared server URL; (R19.4, S2) no method of *Server / *Client / baseServer / baseClient / webhook types stores to a field of its receiver; (R19.5, S1) pooled jx decoders/encoders are not used after a non-deferred Put and are not stored into longer-lived structures. NOT decided: thread-safety of dependencies (regexp2, otel, net/http), user handlers, and 'every call's outcome equals the outcome it has when run alone' beyond the absence of shared mutable state.",
 			Assumptions: []string{"sync.Pool / sync.Once internals are trusted", "aliasing is approximated by address roots (a pointer loaded from a global or the receiver is shared; a local Alloc / call result is request-local)", "S2 quantifies over the fixture corpus"},
 			TrustedBase: []string{"cmd/ogen as macro-expander (build step)", "frozen list of mutating math/big.Rat methods"},
@@ -963,7 +963,6 @@ func checkSyncPoolDiscipline(c *core.Ctx, r *core.Rule, prog *core.Prog, pkgPath
 	}
 	_ = n
 }
-
 
 // checkSharedReceiversReadOnly (R19.4, S1 part): compiled patterns
 // (ogenregex.Regexp implementations) live in the generated package-level
